@@ -93,4 +93,41 @@ def getSchedule (finallyRelease : Bool) (t : Tcs) (z : String) (otherReleases : 
       let (set', r) := fragLoop set0 frags
       after r set'
 
+/-! ### writing a schedule (`Schedule.set_schedule`) -/
+
+/-- what the zone object holds: the schedule it believes (a tag) and the change counter it is labelled with -/
+structure Cache where
+  sched : Option Nat
+  ver : Nat
+  deriving DecidableEq, Repr
+
+/-- one `W|0404` fragment exchange: acknowledged, failed (no ack after the retries), or cancelled by the caller -/
+inductive WExch where
+  | ack | fail | cancel
+  deriving DecidableEq, Repr
+
+/-- the fragment writes, in order: `none` when all were acknowledged -/
+def writeLoop : List WExch → Option Result
+  | [] => none
+  | .ack :: rest => writeLoop rest
+  | .fail :: _ => some .error
+  | .cancel :: _ => some .cancelled
+
+/-- `set_schedule(new)`: obtain the lock; write every fragment; then read the change counter; release the lock in a
+    `finally`; only then does the zone take the new schedule as its own, labelled with the counter just read.
+    `cacheEarly` = the (seeded) variant that stores the new schedule before anything is written. -/
+def setSchedule (cacheEarly : Bool) (t : Tcs) (z : String) (otherReleases : Bool) (cache : Cache) (new : Nat)
+    (frags : List WExch) (verExch : Exch) : Tcs × Cache × Result :=
+  let cache0 : Cache := if cacheEarly then { cache with sched := some new } else cache
+  match obtain t z otherReleases with
+  | (t1, false) => (t1, cache0, .lockTimeout)
+  | (_, true) =>
+    match writeLoop frags with
+    | some r => (⟨none⟩, cache0, r)
+    | none =>
+      match verExch with
+      | .fail => (⟨none⟩, cache0, .error)
+      | .cancel => (⟨none⟩, cache0, .cancelled)
+      | .reply f => (⟨none⟩, ⟨some new, f.ver⟩, .sched f.ver)
+
 end Ramses.Xfer
